@@ -3,8 +3,8 @@ package main
 import (
 	"bytes"
 	"fmt"
-	"sort"
 	"runtime/debug"
+	"sort"
 	"time"
 
 	"github.com/akrylysov/pogreb"
